@@ -157,7 +157,7 @@ static struct module *module_load(const char *name)
     }
     func = dlsym(loading_module->handle, "module_constructor");
     if (func)
-        func(name);
+        func(mod->name); /* our copy: the caller's string may not live as long */
     loading_module = prior;
     return mod;
 }
